@@ -185,6 +185,8 @@ def gen_function(contract, contracts, known=()):
                                 {"kind": "raises", "clause": allowed[1], "exc": allowed[0]})
                 raise
             # returned normally
+            if isinstance(result, X.GenV):
+                result = list(result.items)        # a generator function's contract talks about the yielded sequence
             for exc_name, cond in contract.raises.items():
                 c = contract.eval_clause(interp, cond, bound)
                 path.oblige(f"raises.{exc_name}.whenever", V.snot(c),
